@@ -1,15 +1,15 @@
 """C07 - recovering loops and conditionals while decompiling preserves behaviour."""
 import json
 from .. import core, testlang as TL, lowering as LW
-from ..gensrc import gen_body, gen_stream
+from ..gensrc import gen_body, gen_stream, gen_near_structured
 
 META = {
     'level': 'exploration',
-    'rule': 'instruction streams I obtained by lowering (a) generated structured bodies and (b) G-stream flat programs with random forward/backward/overlapping jumps, '
+    'rule': 'instruction streams I obtained by lowering (a) generated structured bodies, (b) G-stream flat programs with random forward/backward/overlapping jumps and (c) near-structured streams: the flat forms of nested if/else-if chains, while/do-while loops and loops with breaks with 0-2 perturbations (jump retargeted, label moved, goto dropped, jump duplicated), '
             'shared end labels, multi-referrer labels, explicit-time jumps, interrupt labels; I is raised with block recovery off (A0) and on (A1, + postprocess); '
             'AstVm traces of A0 and A1 must agree from N states and lower(A1) == lower(A0) == I bytewise; distinct = hash(shape, features); non-trivial = >= 1 jump',
     'assumptions': ['AstVm is the semantics of both decompiled forms', 'when A1 jumps into a nested block the comparison runs on desugar(A1) (relies on C06; counted as via_desugar)'],
-    'floors': {'streams': 50, 'runs_compared': 300, 'with_recovered_blocks': 20},
+    'floors': {'streams': 50, 'near_structured_streams': 50, 'runs_compared': 300, 'with_recovered_blocks': 20},
 }
 SIZES = {'quick': 3000, 'thorough': 80000}
 
@@ -106,7 +106,10 @@ def run_shard(ctx):
             env = LW.tl_env(cfg, feats)
             counters = [(t, g) for (t, g) in env.int_vars[2:4]] + [(t, g) for (t, g) in env.extra_int[1:3]]
             env.int_vars = env.int_vars[:2] + env.extra_int[:1]
-            stm = gen_stream(r, env, counters, n_slots=r.pick([5, 8, 12, 18]), feats=feats)
+            if r.chance(0.5):
+                stm = gen_near_structured(r, env, counters, feats=feats); ctx.count('near_structured_streams')
+            else:
+                stm = gen_stream(r, env, counters, n_slots=r.pick([5, 8, 12, 18]), feats=feats)
             class B: count_regs = set()
             states = LW.gen_states(r, B, nstates, ri, rf)
             text, kind, shape, used = stm.text, 'stream', stm.shape, stm.used | {'back' if stm.nback else 'fwd-only'}
